@@ -65,10 +65,7 @@ func TestC10Race(t *testing.T) {
 		iters = 1500
 	}
 	var n int64
-	for _, c := range flapConcs(t, false) {
-		allowed, _ := c.Serial()
-		n += c.FreeRunConc(rep, env, allowed, iters)
-	}
+	n = schedx.FreeRunAll(rep, env, flapConcs(t, false), true, iters)
 	rep.Add(n, 0, 0, 0)
 	rep.OutcomeN("free-running race-detector pass [iterations]", n)
 }
